@@ -52,6 +52,9 @@ type pppoeSys struct {
 	// (add-only seam), so that low ids handed out before are still alive when the counter wraps.
 	presetAfter int
 	presetTo    uint16
+	// laps: "Lap(x)" ops used. A lap = about 65535 further sessions have come and gone and the id cursor
+	// stands at x again while the long-lived sessions are still there (add-only seam; at most one per execution).
+	laps int
 	viols       []explore.Viol
 	bk          sync.Mutex // harness bookkeeping only (free-running -race pass)
 }
@@ -89,6 +92,11 @@ func (s *pppoeSys) Ops() []string {
 		ops = append(ops, fmt.Sprintf("Remove(%d)", id), fmt.Sprintf("Touch(%d)", id))
 	}
 	ops = append(ops, "Remove(40000)", "Sleep(40s)", "Cleanup(60s)")
+	if !s.conc && s.presetAfter > 0 && s.creates > s.presetAfter && s.laps == 0 {
+		// the cursor has been once around the id space: it stands on / just below the last id again,
+		// or on a low id that is still alive
+		ops = append(ops, "Lap(65535)", "Lap(65534)", "Lap(1)")
+	}
 	return ops
 }
 
@@ -185,6 +193,11 @@ func (s *pppoeSys) Apply(op string) string {
 			s.m.VerifC20SetNextID(s.presetTo)
 		}
 		return fmt.Sprint(sess.ID)
+	case "Lap":
+		id, _ := strconv.Atoi(args[0])
+		s.laps++
+		s.m.VerifC20SetNextID(uint16(id))
+		return "cursor=" + args[0]
 	case "Remove":
 		id, _ := strconv.Atoi(args[0])
 		s.m.RemoveSession(uint16(id))
@@ -221,7 +234,7 @@ func (s *pppoeSys) Fingerprint() string {
 	// MagicNumber / SessionID are random per session and never read by the manager;
 	// CreatedAt is never read by the manager. LastActivity decides expiry: kept, relative to now.
 	return deepdump.Dump(s.m, deepdump.Options{Now: time.Now(), SkipFields: map[string]bool{
-		"Session.MagicNumber": true, "Session.SessionID": true, "Session.CreatedAt": true}}) + fmt.Sprint("|", s.creates)
+		"Session.MagicNumber": true, "Session.SessionID": true, "Session.CreatedAt": true}}) + fmt.Sprint("|", s.creates, "|", s.laps)
 }
 
 func (s *pppoeSys) Check() []explore.Viol {
